@@ -19,7 +19,7 @@ RULE = (
     "Hypothesis: a recording (n from 1, so windows longer than the recording occur; 1-5 channels; "
     "int16/int32/float32/float64 samples; flat 1..5 files with header offsets, npy, array, "
     "cbin opened by path or as mtscomp.Reader with 1-3 threads, cache on/off; chunk length 1..n+3) "
-    "plus 0..12 sorted spike samples of dtype int64/uint64/int32/uint32 drawn half of the time "
+    "plus 0..12 (one case in 16: 1001-1300) sorted spike samples of dtype int64/uint64/int32/uint32 drawn half of the time "
     "from {0, n-1, within the half window of either end, chunk/file bounds +-1, duplicates}; "
     "window length 1..12; per-spike channel rows (distinct channels, -1 entries); unit factor in "
     "{1,2,3,1.0,0.5,2.5}; store queries = generated sub-multisets of the stored spike ids in "
@@ -58,18 +58,25 @@ def _case(draw):
     hot.update(range(0, half + 2))
     hot.update(range(n - half - 2, n))
     hot = sorted(h for h in hot if 0 <= h < n)
+    many = draw(st.integers(0, 15)) == 0        # > 1000 spikes (many of them in one chunk)
     ns = draw(st.integers(0, 12))
     spikes = sorted(draw(st.lists(st.sampled_from(hot) | st.integers(0, n - 1), min_size=ns,
                                   max_size=ns)))
+    if many and ns >= 1:
+        total = draw(st.integers(1001, 1300))
+        spikes = sorted(spikes[i % ns] for i in range(total))
+        ns = total
     nloc = draw(st.integers(1, min(4, nch + 1)))
     chan = st.integers(0, nch - 1) | st.just(-1)
     chans = []
-    for _ in range(ns):
+    for _ in range(min(ns, 12)):
         row = draw(st.lists(chan, min_size=nloc, max_size=nloc))
         # distinct real channels per row (-1 may repeat)
         seen = set()
         row = [(-1 if (c in seen) else (seen.add(c) or c)) if c != -1 else -1 for c in row]
         chans.append(row)
+    if ns > 12:
+        chans = [chans[(i * 7) % 12] for i in range(ns)]    # channel rows differ between spikes
     common = draw(st.lists(chan, min_size=1, max_size=4))
     seen = set()
     common = [(-1 if (c in seen) else (seen.add(c) or c)) if c != -1 else -1 for c in common]
@@ -210,6 +217,8 @@ def classify(case, info):
         labels.append('multi-file')
     if case['queries']:
         labels.append('store-queries')
+    if len(case['spikes']) > 1000:
+        labels.append('>1000-spikes')
     if case.get('preexisting'):
         labels.append('export-over-existing-file')
     return labels, nt
